@@ -1356,7 +1356,7 @@ class Process(StateMachine, persistence.Savable, metaclass=ProcessStateMachineMe
                 # that of the exception i.e. if it is the _same_ interruption.  If not cancel and
                 # build the interrupt action below
                 if self._interrupt_action is not None:
-                    if self._interrupt_action.cookie is not exception:
+                    if self._interrupt_action.cookie is not exception and self._killing is None:
                         self._set_interrupt_action_from_exception(exception)
                 else:
                     self._set_interrupt_action_from_exception(exception)
